@@ -40,8 +40,8 @@ var hexRe = regexp.MustCompile(`0x[0-9a-fA-F]+`)
 func MsgClass(s string) string {
 	s = hexRe.ReplaceAllString(s, "H")
 	s = numRe.ReplaceAllString(s, "N")
-	if len(s) > 90 {
-		s = s[:90]
+	if len(s) > 110 {
+		s = s[:40] + "..." + s[len(s)-65:]
 	}
 	return s
 }
